@@ -15,7 +15,7 @@ theorem useGrant_shape {s s' : State} {g e k : Nat} {x : Int} (h : useGrant s g 
     ∃ gs, s' = { s with grants := gs } := by
   unfold useGrant at h
   simp only [bind, Option.bind_eq_some_iff, pure, Option.some.injEq] at h
-  obtain ⟨_, _, _, _, _, _, rfl⟩ := h
+  obtain ⟨_, _, _, _, _, _, _, _, rfl⟩ := h
   split
   · exact ⟨_, rfl⟩
   · exact ⟨_, rfl⟩
